@@ -576,7 +576,7 @@ _MASKS = (('space-before-index', ('layout-code-meaning', 'layout-symbols', 'layo
           ('space-before-lhs-index', ('layout-outcome',)),
           ('duplicate-respaced', ('layout-outcome',)),
           ('index-sign-blank', ('layout-outcome',)),
-          ('dotted-name-blank', ('layout-symbols', 'layout-code-meaning')),
+          ('dotted-name-blank', ('layout-symbols',)),
           ('linesep-outside-brackets', ('layout-outcome',)),
           ('bracketed-statement', ('layout-outcome',)))
 import keyword as _keyword
